@@ -46,5 +46,33 @@ fn int_const_total() {
     kani::cover!(len == 10 && w <= u32::MAX as u64, "ten digits that fit");
 }
 
+// ---------------------------------------------------------------------------------------------------------------
+/// C05 "meta-data keywords: left=reduce, right=shift" (rustemo_actions.rs): each of the eight associativity keyword
+/// actions returns a one-entry map whose key is the one the grammar builder looks for ("left" for left/reduce, "right"
+/// for right/shift), at production and at terminal level.  complete: the functions have no input but an unused context.
+/// (The maps are leaked: dropping a String-keyed BTreeMap costs CBMC minutes.)
+#[kani::proof]
+#[kani::unwind(8)]
+fn assoc_keywords() {
+    use crate::lang::rustemo::{State, TokenKind};
+    use crate::lang::rustemo_actions as a;
+    use rustemo::{LRContext, Position};
+    let ctx: LRContext<str, State, TokenKind> = LRContext::new(Position::new(0, 1, 0));
+    let check = |m: std::collections::BTreeMap<String, a::ConstVal>, key: &str| {
+        assert!(m.len() == 1, "C05: a keyword action returns more than one key");
+        assert!(m.contains_key(key), "C05: associativity keyword mapped to the wrong key");
+        std::mem::forget(m);
+    };
+    check(a::prod_meta_data_left(&ctx), "left");
+    check(a::prod_meta_data_reduce(&ctx), "left");
+    check(a::prod_meta_data_right(&ctx), "right");
+    check(a::prod_meta_data_shift(&ctx), "right");
+    check(a::term_meta_data_left(&ctx), "left");
+    check(a::term_meta_data_reduce(&ctx), "left");
+    check(a::term_meta_data_right(&ctx), "right");
+    check(a::term_meta_data_shift(&ctx), "right");
+    kani::cover!(true, "all eight executed");
+}
+
 // Concrete playback (./check <id> --replay): Kani's generated unit test is written to this file, which is empty otherwise.
 include!("/verif/build/gen/playback_compiler_lib.rs");
